@@ -9,6 +9,7 @@ replace github.com/ontio/ontology => /repo
 require (
 	github.com/JohnCGriffin/overflow v0.0.0-20170615021017-4d914c927216
 	github.com/blang/semver v3.5.1+incompatible
+	github.com/btcsuite/btcd v0.22.0-beta
 	github.com/ethereum/go-ethereum v1.9.25
 	github.com/gammazero/workerpool v1.1.2
 	github.com/gorilla/websocket v1.4.1
@@ -37,7 +38,6 @@ require (
 	github.com/Workiva/go-datastructures v1.0.50 // indirect
 	github.com/aristanetworks/goarista v0.0.0-20170210015632-ea17b1a17847 // indirect
 	github.com/beorn7/perks v0.0.0-20180321164747-3a771d992973 // indirect
-	github.com/btcsuite/btcd v0.22.0-beta // indirect
 	github.com/cespare/xxhash/v2 v2.1.1 // indirect
 	github.com/cpuguy83/go-md2man/v2 v2.0.0-20190314233015-f79a8a8ca69d // indirect
 	github.com/davecgh/go-spew v1.1.1 // indirect
